@@ -343,11 +343,17 @@ def judge_sinusoid_text(ctx, prefix, text, value, unit, p, w, sin, deg, hertz, w
         return
     tbl = TABLES['display']
     q = parse_sinusoid(text, unit, p)
-    if not judge_real(ctx, prefix, q['amp'], abs(value), p, unit, tbl, where + '/amplitude'):
-        return
     if w == 0:
+        # |A| cos(0 t + phi) is the constant Re(value): the text must denote it, sign included
         if q['fn'] is not None:
             ctx.violation(f'{prefix}/{where}/dc-rendered-as-oscillation', f'{text!r}', {})
+            return
+        ctx.count('sinusoid_dc_labels_judged')
+        re = complex(value).real
+        if abs(re) >= 1e-3 * abs(value):       # (a constant that is a rounding residue of a 90 degree phase is not judged)
+            judge_real(ctx, prefix, text, re, p, unit, tbl, where + '/dc-value')
+        return
+    if not judge_real(ctx, prefix, q['amp'], abs(value), p, unit, tbl, where + '/amplitude'):
         return
     if q['fn'] is None or (q['fn'] == 'sin') != bool(sin) or q['hertz'] != bool(hertz):
         ctx.violation(f'{prefix}/{where}/wrong-form', f'{text!r} for w={w!r}, sin={sin}, hertz={hertz}', {})
